@@ -30,7 +30,7 @@ func init() {
 		Directed:   c19Directed,
 		Run:        c19Run,
 		MustHit:    []string{"variant=Metadata", "variant=MetadataWithSLO", "hours>0", "hours<=0", "enc=setter", "sig=setter", "sig=field", "sig=none", "published_signing_cert_used", "published_encryption_cert_used", "xml_roundtrip", "non_utc_location", "near_dst_transition"},
-		RandomRuns: map[string]int{"quick": 600, "thorough": 20000},
+		RandomRuns: map[string]int{"quick": 3000, "thorough": 20000},
 		Assumptions: []string{"an encryption key is always configured (the library documents it as required)",
 			"XML round trip is compared as values: encoding/xml fills XMLName bookkeeping fields on the way back"},
 	})
